@@ -47,7 +47,9 @@ Canonical(k, s) ==
     [] k = "anyType"      -> s \in {"absent", "str", "xsiInt"}
     [] k = "wildcardList" -> s \in {"absent", "str", "leaf", "leafTwice", "attrs", "deep", "otherNs", "twice", "unknownChild",
                                      "known", "knownTwice", "knownThenX"}
-    [] k = "wildcardOne"  -> s \in {"absent", "str", "leaf", "attrs", "deep", "otherNs", "unknownChild", "known"}
+    \* (several elements in a single-valued wildcard are kept as the children of one anonymous generic element)
+    [] k = "wildcardOne"  -> s \in {"absent", "str", "leaf", "attrs", "deep", "otherNs", "unknownChild", "known",
+                                     "twice", "leafTwice", "knownTwice", "knownThenX"}
     [] k = "attributes"   -> s \in {"absent", "parentAttrs", "parentAttr"}
     [] k = "primUnion"    -> s \in {"absent", "int", "str"}
     [] k = "compound"     -> s \in {"absent", "compoundN"}
